@@ -27,7 +27,7 @@ def gen_words(wd, J):
 def shard(wd, k, elems, cover, P, files):
     sd = os.path.join(wd, 'shard%02d' % k)
     os.makedirs(sd, exist_ok=True)
-    json.dump(dict(elems=elems, ops=['trip', 'copy', 'parse'], cover=cover, maxwords=P['maxwords'], wrap=(k % P['wrap_every'] == 0),
+    json.dump(dict(elems=elems, ops=['trip', 'copy', 'parse', 'nested'], cover=cover, maxwords=P['maxwords'], wrap=(k % P['wrap_every'] == 0),
                    nmut=P['nmut'], files=files), open(os.path.join(sd, 'job.json'), 'w'))
     trace = os.path.join(sd, 'trace.ndjson')
     t0 = time.time()
